@@ -88,6 +88,20 @@ static FWire c06_gain(ll op,Reader& r,FReader& fr) {
         mean /= (double)G.nlin();
         for (size_t i=0;i<G.nlin();++i) out.f.push_back(G(i,j)-mean);
     }
+    // MEG gain for squids placed radially at 1.3 times the sensor positions (magnetic field: no reference needed)
+    {
+        Matrix sp(ns,3), so(ns,3); Vector w(ns), rad(ns); Strings labels;
+        for (size_t i=0;i<ns;++i) {
+            for (size_t k=0;k<3;++k) { sp(i,k) = 1.3*pos(i,k); so(i,k) = pos(i,k); }
+            w(i) = 1.0; rad(i) = 0.0; labels.push_back("s"+std::to_string(i));
+        }
+        const Sensors squids(labels,sp,so,w,rad);
+        const Matrix H2M = Head2MEGMat(geo,squids);
+        const Matrix S2M = DipSource2MEGMat(dip,squids);
+        const GainMEG GM(HM,DSM,H2M,S2M);
+        out.z.push_back((ll)GM.nlin());
+        for (size_t j=0;j<GM.ncol();++j) for (size_t i=0;i<GM.nlin();++i) out.f.push_back(GM(i,j));
+    }
     return out;
 }
 
